@@ -242,6 +242,8 @@ def build(ctx):
         return be.prove_int(tm.sub(tm.diff(tm.mul(rho, Zs), rho), tm.rconst("0.7")), {"tr": (1.05, 3.0), "rho": (0.0, 8.0)}, mode=">0", max_boxes=20000)
 
     obs.append(Obligation("canary.int", "CANARY (must be refuted): d/d rho [rho Z_eos] > 0.7 on the rectangle (true minimum is about 0.58)", canary, fs, "INT", expect=be.REFUTED))
+    if ctx.tier == "thorough":
+        obs.append(lean_obligation(ctx, ['pyvc_unique_root']))
     return obs
 
 
